@@ -187,6 +187,10 @@ let hist lineno (f : string array) =
         { hs with M.hs_model = fst (M.create_bucket hs.M.hs_model b) }) (M.hinit_fs fs) pre;
     walk_mode := 0; print_string "SKIP\n"
   | "E" -> print_string "SKIP\n"
+  | "REOPEN" ->
+    (* a restart keeps the backend state and drops the (in-memory) multipart uploads *)
+    hist_state := { !hist_state with M.hs_up = M.uinit; M.hs_utbl = [] }; print_string "SKIP\n"
+  | "REOPENFAIL" -> Printf.printf "FAIL\t%d\tmodel=-\tspec=store-does-not-reopen\t%s\n" lineno (raw_of_hex f.(2))
   | "NOMODEL" -> hist_nomodel := true; print_string "SKIP\n"
   | "FRAME" ->
     let allowed = List.map bytes_of_hex (split_on ',' f.(2)) in
